@@ -1359,8 +1359,8 @@ pub mod fasta {
         }
 //@loop 0 kw=while
             invariant_except_break
-                n_records matches Some(m) ==> rset.n() < m,
-                self.state == State::Incomplete && rset.n() > 0 ==> !is_new,
+                [C04|fasta.read_set.inv.below_requested_count] n_records matches Some(m) ==> rset.n() < m,
+                [C04,C06|fasta.read_set.inv.no_compaction_once_a_record_is_held] self.state == State::Incomplete && rset.n() > 0 ==> !is_new,
             invariant
                 [C03,C04,C05,C06|fasta.read_set.inv.state] self.rs_a(old(self), rset, n_records),
                 [C03,C04,C06|fasta.read_set.inv.positions_valid] self.rs_b(rset),
